@@ -338,6 +338,7 @@ func (p *Proxy) handleConnectRequest(ctx *Context, req *http.Request, session *S
 		}
 
 		log.Debugf("martian: completed MITM for connection: %s", req.Host)
+		session.setTunnelAuthority(req.URL.Host)
 
 		b := make([]byte, 1)
 		if _, err := brw.Read(b); err != nil {
@@ -498,6 +499,10 @@ func (p *Proxy) handle(ctx *Context, conn net.Conn, brw *bufio.ReadWriter) error
 	req.RemoteAddr = conn.RemoteAddr().String()
 	if req.URL.Host == "" {
 		req.URL.Host = req.Host
+	}
+	if req.URL.Host == "" {
+		// A request inside a CONNECT tunnel that names no host is meant for the tunnel's target.
+		req.URL.Host = session.tunnelAuthority()
 	}
 
 	if req.Method == "CONNECT" {
